@@ -35,6 +35,7 @@ type variant struct {
 	auth        gmtls.ClientAuthType // initial ClientAuth of both servers
 	ops         []int                // reduced operation alphabet (nil = all)
 	related     int                  // 0: two Configs built independently; 1: S1 = S0.Clone(); 2: S1 hands out S0.Clone() through GetConfigForClient
+	versions    bool                 // TLS only: the client speaks 1.0-1.2 and operations 7/8/9 move version caps
 }
 
 func keyBytes(id int) (k [32]byte) {
@@ -51,6 +52,7 @@ type mServer struct {
 	suites     []uint16 // nil = default
 	auth       gmtls.ClientAuthType
 	ticketsOff bool
+	maxVers    uint16 // 0 = the library's default (TLS 1.2)
 }
 
 type mEntry struct {
@@ -58,6 +60,7 @@ type mEntry struct {
 	keyID   int
 	suite   uint16
 	hasCert bool
+	vers    uint16
 }
 
 type model struct {
@@ -66,6 +69,19 @@ type model struct {
 	cache   []mEntry // front = most recently used
 	cSuites []uint16 // client's explicit list (nil = default)
 	nextKey int
+	cMax    uint16 // client's MaxVersion (versions variants)
+}
+
+// negotiated is the protocol version a handshake with server si ends up with.
+func (m *model) negotiated(si int) uint16 {
+	v := uint16(0x0303)
+	if m.srv[si].maxVers != 0 && m.srv[si].maxVers < v {
+		v = m.srv[si].maxVers
+	}
+	if m.cMax != 0 && m.cMax < v {
+		v = m.cMax
+	}
+	return v
 }
 
 func (m *model) lookup(name string) *mEntry {
@@ -134,6 +150,9 @@ func (m *model) predict(si int, name string) (verdict int, why string) {
 	if s.ticketsOff {
 		return mustNot, "tickets disabled"
 	}
+	if m.v.versions && e.vers != m.negotiated(si) {
+		return mustNot, "session was established under another protocol version"
+	}
 	ok := false
 	for _, k := range s.ring {
 		if k == e.keyID {
@@ -191,7 +210,7 @@ func (m *model) after(si int, name string, resumed bool, suite uint16) {
 	if s.ticketsOff {
 		return
 	}
-	m.put(mEntry{name: name, keyID: s.ring[0], suite: suite, hasCert: s.auth >= gmtls.RequestClientCert})
+	m.put(mEntry{name: name, keyID: s.ring[0], suite: suite, hasCert: s.auth >= gmtls.RequestClientCert, vers: m.negotiated(si)})
 }
 
 // ---- the real system ------------------------------------------------------------------------------
@@ -248,6 +267,9 @@ func newWorld(v variant) (*world, *model) {
 		w.cli.RootCAs = p.StdRootsG
 		w.cli.Certificates = []gmtls.Certificate{p.StdClient}
 		w.cli.MinVersion, w.cli.MaxVersion = 0x0303, 0x0303
+		if v.versions {
+			w.cli.MinVersion = 0x0301
+		}
 	}
 	return w, m
 }
@@ -259,6 +281,20 @@ const nOps = 13
 func opName(op int) string {
 	return []string{"connect(S0,a)", "connect(S0,b)", "connect(S1,a)", "connect(S1,b)", "rotate(S0,keep old)", "rotate(S0,drop old)", "rotate(S1,keep old)",
 		"S0.suites:=[GCM]", "S0.suites:=[CBC,GCM]", "client.suites:=[GCM]", "S0.ClientAuth:=RequireAny", "S0.ClientAuth:=None", "S0.disableTickets"}[op]
+}
+
+func opNameV(v variant, op int) string {
+	if v.versions {
+		switch op {
+		case 7:
+			return "S0.MaxVersion:=TLS1.1"
+		case 8:
+			return "S0.MaxVersion:=TLS1.2"
+		case 9:
+			return "client.MaxVersion:=TLS1.0"
+		}
+	}
+	return opName(op)
 }
 
 type connResult struct {
@@ -299,6 +335,15 @@ func apply(w *world, m *model, op int) (o *tlsk.Outcome, verdict int, why string
 		} else {
 			w.srv[si].SetSessionTicketKeys(ks)
 		}
+	case op == 7 && m.v.versions:
+		w.srv[0].MaxVersion = 0x0302
+		m.srv[0].maxVers = 0x0302
+	case op == 8 && m.v.versions:
+		w.srv[0].MaxVersion = 0x0303
+		m.srv[0].maxVers = 0x0303
+	case op == 9 && m.v.versions:
+		w.cli.MaxVersion = 0x0301
+		m.cMax = 0x0301
 	case op == 7:
 		if m.v.gm {
 			w.srv[0].CipherSuites = []uint16{gcm}
@@ -341,7 +386,7 @@ func site(st string) string {
 }
 
 func histUnit(v variant, first, depth int) harness.Unit {
-	return harness.Unit{Name: fmt.Sprintf("history/%s/first=%s/depth=%d", v.name, opName(first), depth), Run: func(c *harness.Ctx) {
+	return harness.Unit{Name: fmt.Sprintf("history/%s/first=%s/depth=%d", v.name, opNameV(v, first), depth), Run: func(c *harness.Ctx) {
 		c.Explore(-1, func(x *xp.X) {
 			w, m := newWorld(v)
 			var hist []string
@@ -355,7 +400,7 @@ func histUnit(v variant, first, depth int) harness.Unit {
 						op = x.Pick(nOps, "op")
 					}
 				}
-				hist = append(hist, opName(op))
+				hist = append(hist, opNameV(v, op))
 				c.Add("transitions", 1)
 				o, verdict, why, si, name := apply(w, m, op)
 				if o == nil {
@@ -378,12 +423,16 @@ func histUnit(v variant, first, depth int) harness.Unit {
 				if !o.C.Complete || !o.S.Complete {
 					// the only legitimate failure: the policy requires a client certificate... the client
 					// always has one, so every connection of these histories must succeed
-					c.Violate(fmt.Sprintf("connection-fails:%s:%s", v.name, opName(op)), fmt.Sprintf("[%s] (model: %s) the connection failed instead of resuming or falling back: %s", tag, why, o.Describe()), x.Choices, tag)
+					c.Violate(fmt.Sprintf("connection-fails:%s:%s", v.name, opNameV(v, op)), fmt.Sprintf("[%s] (model: %s) the connection failed instead of resuming or falling back: %s", tag, why, o.Describe()), x.Choices, tag)
 					c.DistinctS("outcomes", "fail")
 					return
 				}
 				if o.C.DidResume != o.S.DidResume {
 					c.Violate("resume-views-differ:"+v.name, fmt.Sprintf("[%s] client DidResume=%v server DidResume=%v", tag, o.C.DidResume, o.S.DidResume), x.Choices, tag)
+					return
+				}
+				if v.versions && (o.C.Version != m.negotiated(si) || o.S.Version != m.negotiated(si)) {
+					c.Violate("version:"+v.name, fmt.Sprintf("[%s] client reports version %04x, server %04x, the caps allow %04x", tag, o.C.Version, o.S.Version, m.negotiated(si)), x.Choices, tag)
 					return
 				}
 				res := o.C.DidResume
@@ -647,25 +696,29 @@ func ticketFaultUnit(v variant) harness.Unit {
 }
 
 var variants = []variant{
-	{"GMSSL/explicit-suites/shared-key/cap2", true, true, true, 2, 0, nil, 0},
-	{"GMSSL/explicit-suites/separate-keys/cap1", true, true, false, 1, 0, nil, 0},
-	{"GMSSL/default-suites/shared-key/cap2", true, false, true, 2, 0, nil, 0},
-	{"TLS1.2/shared-key/cap2", false, false, true, 2, 0, nil, 0},
-	{"TLS1.2/separate-keys/cap1", false, false, false, 1, 0, nil, 0},
-	{"GMSSL/explicit-suites/shared-key/cap3", true, true, true, 3, 0, nil, 0},
-	{"GMSSL/explicit-suites/S1=S0.Clone()/cap2", true, true, true, 2, 0, nil, 1},
-	{"TLS1.2/S1=S0.Clone()/cap2", false, false, true, 2, 0, nil, 1},
-	{"TLS1.2/S1=GetConfigForClient->S0.Clone()/cap2", false, false, true, 2, 0, nil, 2},
+	{"GMSSL/explicit-suites/shared-key/cap2", true, true, true, 2, 0, nil, 0, false},
+	{"GMSSL/explicit-suites/separate-keys/cap1", true, true, false, 1, 0, nil, 0, false},
+	{"GMSSL/default-suites/shared-key/cap2", true, false, true, 2, 0, nil, 0, false},
+	{"TLS1.2/shared-key/cap2", false, false, true, 2, 0, nil, 0, false},
+	{"TLS1.2/separate-keys/cap1", false, false, false, 1, 0, nil, 0, false},
+	{"GMSSL/explicit-suites/shared-key/cap3", true, true, true, 3, 0, nil, 0, false},
+	{"GMSSL/explicit-suites/S1=S0.Clone()/cap2", true, true, true, 2, 0, nil, 1, false},
+	{"TLS1.2/S1=S0.Clone()/cap2", false, false, true, 2, 0, nil, 1, false},
+	{"TLS1.2/S1=GetConfigForClient->S0.Clone()/cap2", false, false, true, 2, 0, nil, 2, false},
 }
 
 // focused variants: a reduced alphabet (connections and key rotations only) explored deeper, with
 // servers that request / require client certificates from the start
 var rotationOps = []int{0, 2, 4, 5, 6}
+var versionOps = []int{0, 2, 7, 8, 9, 4}
 var focused = []variant{
-	{"GMSSL/rotation-focus/ClientAuth=Request", true, true, true, 2, gmtls.RequestClientCert, rotationOps, 0},
-	{"GMSSL/rotation-focus/ClientAuth=VerifyIfGiven", true, true, true, 2, gmtls.VerifyClientCertIfGiven, rotationOps, 0},
-	{"TLS1.2/rotation-focus/ClientAuth=Request", false, false, true, 2, gmtls.RequestClientCert, rotationOps, 0},
-	{"TLS1.2/rotation-focus/ClientAuth=RequireAny", false, false, false, 1, gmtls.RequireAnyClientCert, rotationOps, 0},
+	{"TLS/version-caps/shared-key/cap2", false, false, true, 2, 0, versionOps, 0, true},
+	{"TLS/version-caps/S1=S0.Clone()/cap2", false, false, true, 2, 0, versionOps, 1, true},
+	{"TLS/version-caps/S1=GetConfigForClient->S0.Clone()/cap2", false, false, true, 2, 0, versionOps, 2, true},
+	{"GMSSL/rotation-focus/ClientAuth=Request", true, true, true, 2, gmtls.RequestClientCert, rotationOps, 0, false},
+	{"GMSSL/rotation-focus/ClientAuth=VerifyIfGiven", true, true, true, 2, gmtls.VerifyClientCertIfGiven, rotationOps, 0, false},
+	{"TLS1.2/rotation-focus/ClientAuth=Request", false, false, true, 2, gmtls.RequestClientCert, rotationOps, 0, false},
+	{"TLS1.2/rotation-focus/ClientAuth=RequireAny", false, false, false, 1, gmtls.RequireAnyClientCert, rotationOps, 0, false},
 }
 
 // Prop registers C16.
